@@ -111,6 +111,7 @@ let schema_of_sx (x : sx) : mdesc list =
           | A "enum" -> TEnum
           | A k -> TScalar (kind_of_string k)
           | L [A "msg"; A i] -> TMsg (nat_of_int (int_of_string i))
+          | L [A "mapother"] -> TMapOther
           | L [A "map"; A kk; A vk] ->
             (* map values outside the 15 scalar kinds are reported as TMap with ... *)
             TMap (kind_of_string kk, kind_of_string vk)
@@ -274,6 +275,50 @@ let do_reader k rep field data init =
 
 let res_hex = function Panic -> "PANIC" | Ok b -> hex_of_bytes b
 
+(* programs of the generator model in the T-pico text format *)
+let string_of_kind = function
+  | KBool -> "bool" | KInt32 -> "int32" | KInt64 -> "int64" | KUint32 -> "uint32" | KUint64 -> "uint64"
+  | KSint32 -> "sint32" | KSint64 -> "sint64" | KFixed32 -> "fixed32" | KFixed64 -> "fixed64"
+  | KSfixed32 -> "sfixed32" | KSfixed64 -> "sfixed64" | KFloat -> "float" | KDouble -> "double"
+  | KString -> "string" | KBytes -> "bytes"
+let b01 b = if b then "1" else "0"
+let string_of_cast = function
+  | CastTs -> "ts" | CastDur -> "dur" | CastMap (kk, vk) -> "map:" ^ string_of_kind kk ^ ":" ^ string_of_kind vk
+let rec string_of_eop = function
+  | EScalar (k, a, r, p, _, n) -> "(escalar " ^ string_of_kind k ^ " " ^ b01 a ^ " " ^ b01 r ^ " " ^ b01 p ^ " " ^ string_of_z n ^ ")"
+  | EMsgPtr (_, n, _) -> "(emsgptr " ^ string_of_z n ^ ")"
+  | EMsgRepPtr (_, n, _) -> "(emsgrepptr " ^ string_of_z n ^ ")"
+  | EMsgPresent (_, n, _) -> "(emsgpresent " ^ string_of_z n ^ ")"
+  | EMsgRepVal (_, n, _) -> "(emsgrepval " ^ string_of_z n ^ ")"
+  | EEnum (a, _, n) -> "(eenum " ^ b01 a ^ " " ^ string_of_z n ^ ")"
+  | ERepEnum (_, n) -> "(erepenum " ^ string_of_z n ^ ")"
+  | ECast (c, p, r, _, n) -> "(ecast " ^ string_of_cast c ^ " " ^ b01 p ^ " " ^ b01 r ^ " " ^ string_of_z n ^ ")"
+  | EOpaque (_, n) -> "(eopaque " ^ string_of_z n ^ ")"
+  | EOneof (_, i) -> "(eoneof " ^ string_of_eop i ^ ")"
+  | EUnrec -> "(eunrec)"
+let rec string_of_dop = function
+  | DScalar (k, r, p, _, n) -> "(dscalar " ^ string_of_kind k ^ " " ^ b01 r ^ " " ^ b01 p ^ " " ^ string_of_z n ^ ")"
+  | DMsgPtr (_, n, _) -> "(dmsgptr " ^ string_of_z n ^ ")"
+  | DMsgRepPtr (_, n, _) -> "(dmsgrepptr " ^ string_of_z n ^ ")"
+  | DMsgPresent (_, n, _) -> "(dmsgpresent " ^ string_of_z n ^ ")"
+  | DMsgRepVal (_, n, _) -> "(dmsgrepval " ^ string_of_z n ^ ")"
+  | DEnum (_, n) -> "(denum " ^ string_of_z n ^ ")"
+  | DRepEnum (_, n) -> "(drepenum " ^ string_of_z n ^ ")"
+  | DCast (c, p, r, _, n) -> "(dcast " ^ string_of_cast c ^ " " ^ b01 p ^ " " ^ b01 r ^ " " ^ string_of_z n ^ ")"
+  | DOpaque (_, n) -> "(dopaque " ^ string_of_z n ^ ")"
+  | DOneof (_, n, _, i) -> "(doneof " ^ string_of_z n ^ " " ^ string_of_dop i ^ ")"
+  | DUnrec m -> "(dunrec " ^ string_of_z m ^ ")"
+let concat_ops tag l = if l = [] then "(" ^ tag ^ ")" else "(" ^ tag ^ " " ^ String.concat " " l ^ ")"
+
+(* progs <schema name> -> one "enc|dec" pair per message, separated by ';;' *)
+let do_progs name =
+  let (_, p) = Hashtbl.find schemas name in
+  match p with
+  | None -> "nogen"
+  | Some progs ->
+    String.concat ";;" (List.map (fun pr ->
+        concat_ops "enc" (List.map string_of_eop pr.p_enc) ^ "|" ^ concat_ops "dec" (List.map string_of_dop pr.p_dec)) progs)
+
 let dispatch suite cols =
   match suite, cols with
   | "bitset", input :: _ -> do_bitset input
@@ -282,6 +327,7 @@ let dispatch suite cols =
   | "msg", tref :: _ :: v :: _ -> do_msg tref v
   | "dec", tref :: _ :: hx :: _ -> do_dec tref hx
   | "hist", tref :: _ :: cs :: _ -> do_hist tref cs
+  | "progs", name :: _ -> do_progs name
   | "writer", k :: a :: r :: num :: vs :: _ -> do_writer k a r num vs
   | "reader", k :: r :: f :: data :: init :: _ -> do_reader k r f data init
   | "durdec", s :: n :: _ -> string_of_z (mx_dur_join (z_of_string s) (z_of_string n))
